@@ -33,6 +33,54 @@ pub type ErrorRecovery<'input> =
 pub type ParseError<'input> =
     lalrpop_util::ParseError<usize, rules::aidl::Token<'input>, &'static str>;
 
+/// Verification hook: one record per call of `Diagnostic::from_parse_error`
+#[cfg(feature = "verif-hooks")]
+#[derive(Clone, Debug, PartialEq, Eq)]
+pub struct VerifParseErrorRecord {
+    pub variant: &'static str,
+    pub start: usize,
+    pub end: usize,
+    pub expected: Vec<String>,
+}
+
+#[cfg(feature = "verif-hooks")]
+thread_local! {
+    static VERIF_PARSE_ERRORS: std::cell::RefCell<Vec<VerifParseErrorRecord>> = std::cell::RefCell::new(Vec::new());
+}
+
+/// Verification hook: drain the records of the current thread
+#[cfg(feature = "verif-hooks")]
+pub fn verif_take_expected() -> Vec<VerifParseErrorRecord> {
+    VERIF_PARSE_ERRORS.with(|r| std::mem::take(&mut *r.borrow_mut()))
+}
+
+#[cfg(feature = "verif-hooks")]
+fn verif_record(e: &ParseError) {
+    let (variant, start, end, expected) = match e {
+        lalrpop_util::ParseError::InvalidToken { location } => {
+            ("InvalidToken", *location, *location, Vec::new())
+        }
+        lalrpop_util::ParseError::UnrecognizedEOF { location, expected } => {
+            ("UnrecognizedEOF", *location, *location, expected.clone())
+        }
+        lalrpop_util::ParseError::UnrecognizedToken { token, expected } => {
+            ("UnrecognizedToken", token.0, token.2, expected.clone())
+        }
+        lalrpop_util::ParseError::ExtraToken { token } => {
+            ("ExtraToken", token.0, token.2, Vec::new())
+        }
+        lalrpop_util::ParseError::User { .. } => ("User", 0, 0, Vec::new()),
+    };
+    VERIF_PARSE_ERRORS.with(|r| {
+        r.borrow_mut().push(VerifParseErrorRecord {
+            variant,
+            start,
+            end,
+            expected,
+        })
+    });
+}
+
 impl Diagnostic {
     pub(crate) fn from_error_recovery(
         msg: &str,
@@ -49,6 +97,9 @@ impl Diagnostic {
         lookup: &line_col::LineColLookup,
         e: ParseError,
     ) -> Option<Diagnostic> {
+        #[cfg(feature = "verif-hooks")]
+        verif_record(&e);
+
         match e {
             lalrpop_util::ParseError::InvalidToken { location } => Some(Diagnostic {
                 kind: DiagnosticKind::Error,
